@@ -22,6 +22,18 @@ CHECKS = {
              "Three generator compile failures are known findings.",
         technique="executable Gallina codec model, nested-induction proofs, trace-validation judge, generated-code lab",
         design="5/C02"),
+    "C03": dict(
+        text="8 Coq theorems (no axioms) over an executable model of the generated Go client method, FStandardClient Call/Oneway/processReply, "
+             "FBaseProcessor.Process and the generated processor function (composed from the C02 struct codec and the C04 header codec): for every "
+             "environment, method, argument tuple of the declared types and handler outcome the handler is invoked exactly once with equal "
+             "arguments and the caller gets exactly the mapped outcome, also for inherited methods at any depth and under op-id dispatch; a oneway "
+             "method returning nil produces no reply; an unknown method, wrong reply name or wrong reply type is rejected. Tied to the code on "
+             "every run by trace validation: generated clients and processors (lab) with recording stub handlers over in-memory, adapter + simple "
+             "server on TCP, HTTP and NATS, under binary, compact and JSON; every observed call is replayed by the Coq judge.",
+        note="Trusted: Coq kernel + vm_compute; lab/harness as test equipment. TBinary only has a Coq specification; compact and JSON calls compared at the value level. "
+             "Brokers, sockets and base64 assumed to deliver frames unchanged. Size limits are C12's, unwritable results C14's. Three known findings.",
+        technique="Coq model + proofs + vm_compute judge replaying every observed call; generated-code laboratory over four transports and three protocols",
+        design="5/C03"),
     "C04": dict(
         text="Coq theorems over Model/Headers.v (a byte-level transcription of protocol.go's v0 codec and of the Python codec): "
              "layout as documented, stream and frame round trips for every header list and payload with total size < 2^31, "
